@@ -652,7 +652,7 @@ def run(chk):
     # (1) export and round trip: FORD's obj2dict / dict2obj against the model, on generated projects A
     FIRST = [{"display": ["private"]}, {"display": ["public", "private", "protected"]},
              {"display": ["public", "protected"], "nmod": 3, "clash": True}]
-    for k in range(18 if quick else 200):
+    for k in range(14 if quick else 200):
         b = BuiltA(rng, FIRST[k] if k < len(FIRST) else ({"clash": True} if k % 3 == 0 else None))
         built.append(b)
         chk.count(("A", json.dumps(b.A, sort_keys=True)), sample={"A": b.files, "display": b.A["display"]})
@@ -701,7 +701,7 @@ def run(chk):
         b.close()
     # (4) end to end: B built against A's output (local path; http.server on 127.0.0.1), links checked in the HTML
     e2e_witnesses(chk)
-    end_to_end(chk, rng, 12 if quick else 150, 4 if quick else 40)
+    end_to_end(chk, rng, 10 if quick else 150, 3 if quick else 40)
     if not quick:
         chk.coqchk(["Ford.Props.C16"])
 
